@@ -1060,4 +1060,15 @@ theorem decode_fresh_accepted (o : Opts) (bytes : List Nat) (hb : IsBytes bytes)
           rw [g2]; show write 0 c = c0 + 256 * c1
           have := gchk (by rw [uo, hs1o]; exact hchk)
           rw [← this, ucrc, hs1o, hchk, hs1q.2.1]; rfl
+/-- the answer a dead decoder (sticky error `e`) gives to an operation -/
+def stickyOut (e : Err) : Op → Out
+  | .next => .bool false
+  | .checkIntegrity => .integrity 0 (some e)
+  | _ => .err e
+
+theorem step_sticky (a : Api) (e : Err) (h : a.d.q.err = some e) (op : Op) (hop : ∀ o b, op ≠ .reset o b) :
+    (step a op).2 = (stickyOut e op, []) ∧ (step a op).1 = a := by
+  cases op <;>
+    simp_all [step, stickyOut, stepDecode, stepDecodeCtx, stepPeekHeader, stepPeekFileId, stepDiscard, stepNext,
+      stepCheckIntegrity, Api.advance]
 end Fit.DecApi
